@@ -354,6 +354,7 @@ func main() {
 		os.Exit(1)
 	}
 	extractMicro(repo, outDir)
+	extractConsts(repo, outDir)
 	fmt.Printf("registry: %d handler entries, %d invoke entries, %d predicates\n", len(handler), len(invoke), len(names))
 }
 
